@@ -51,7 +51,10 @@ POSITIONS = {
 }
 X = "@x"
 XDEFS = {"undefined": None, "string": {"name": X, "pattern": "push"}, "list": {"name": X, "pattern": ["push"]}}
-SPELLINGS = ["@X1", "@8bit", "@Any-Width", "@x.y", "@_a"]   # undefined references in other spellings (upper case, digit first, ...)
+SPELLINGS = ["@X1", "@8bit", "@Any-Width", "@x.y", "@_a",
+             # names that look like decorated symbols or like words of the DSL, and a bare '@'
+             "@plt", "@plt_stub", "@got", "@got_load", "@gotpcrel", "@GLIBC_2.14", "@2_nops", "@64bit_reg", "@-x", "@.x", "@times", "@min", "@pattern",
+             "@config", "@main_reg", "@any", "@not", "@deref", "@macros", "@name", "@a@b", "@"]   # undefined references in other spellings (upper case, digit first, ...)
 UNRELATED = [None, {"name": "@z", "pattern": "ret"}]   # an unrelated definition (keeps 'at least one definition supplied')
 
 
